@@ -301,7 +301,7 @@ func evalLexer(si specInfo, rl *refLexer, is *inputSet, values []string, only in
 			// accepted the grammar: either C09's "identical rules" check or the model is wrong
 			if !reported["tie"] {
 				reported["tie"] = true
-				cl.report(finding{key: "accepted-grammar-with-identical-rules", cost: si.g.nodes(),
+				cl.report(finding{key: "accepted-grammar:identical-rules", cost: si.g.nodes(),
 					what: fmt.Sprintf("two rules of the top priority match the same prefix of %q with {%s}; grammar %s", w, optString(si.mask), si.g.summary()),
 					c:    rcase{GID: si.gid, Family: si.g.Family, Mask: si.mask, Options: optString(si.mask), Input: hex.EncodeToString([]byte(w)), Text: fmt.Sprintf("%q", w), TM: si.tm}})
 			}
@@ -342,7 +342,7 @@ func evalLexer(si specInfo, rl *refLexer, is *inputSet, values []string, only in
 // ---------------------------------------------------------------------------------------------
 // run
 
-const batchSize = 80
+const batchSize = 78
 
 func run(c *core.Ctx) {
 	maxLen := 5
@@ -351,11 +351,13 @@ func run(c *core.Ctx) {
 	}
 	grams := buildGrammars()
 	main := newInputSet(alphabet, maxLen)
+	// carriage returns are not line ends: a second, small input set for every lexer
+	crSet := newInputSet([]string{"a", "\r", "\n", " "}, 3)
 	passes := 32
 	if c.Quick() {
 		passes = 1
 	}
-	c.Rule(fmt.Sprintf("lexer-only grammars: %d rule sets = stride samples of every (number of rules<=4, total AST nodes) level of the rxref enumeration (patterns of <=4 nodes over a b A [ab] . {eoi} {p} {q} {r} é [\\x80-\\xff] space newline) under 7 rotating decorations (plain, a rule marked (space), extra low-priority space rule, two rules sharing a token, explicit invalid_token rule, two start conditions switched by lexer actions, (class) rule specialising the constant rules) + hand-written families (class/keywords, space/invalid, start conditions, large symbol maps, priorities, backtracking); pass p builds grammar i under option subset (i+p) mod 32 of {tokenLine,tokenColumn,scanBytes,nonBacktracking,caseInsensitive} (quick: pass 0, thorough: passes 0..31); every built lexer runs on every input of length <=%d over {a,b,A,space,\\n,é,😀,\\xff} (%d texts; large-map grammars also on words of <=2 letters over the class boundaries above U+00FF). One evaluation = one (generated lexer, input) pair whose complete stream (symbol, offsets, line, column, end-of-input three times) is compared with the reference. non-trivial = distinct generated lexer whose streams show >=3 different token kinds including invalid_token (end-of-input counts as a kind)", len(grams), maxLen, len(main.words)))
+	c.Rule(fmt.Sprintf("lexer-only grammars: %d rule sets = stride samples of every (number of rules<=4, total AST nodes) level of the rxref enumeration (patterns of <=4 nodes over a b A [ab] . {eoi} {p} {q} {r} é [\\x80-\\xff] space newline) under 7 rotating decorations (plain, a rule marked (space), extra low-priority space rule, two rules sharing a token, explicit invalid_token rule, two start conditions switched by lexer actions, (class) rule specialising the constant rules) + hand-written families (class/keywords, space/invalid, start conditions, large symbol maps, priorities, backtracking); pass p builds grammar i under option subset (i+p) mod 32 of {tokenLine,tokenColumn,scanBytes,nonBacktracking,caseInsensitive} (quick: pass 0, thorough: passes 0..31); every built lexer runs on every input of length <=%d over {a,b,A,space,\\n,é,😀,\\xff} (%d texts), on every word of <=3 letters over {a,\\r,\\n,space} (large-map grammars also on words of <=2 letters over the class boundaries above U+00FF). One evaluation = one (generated lexer, input) pair whose complete stream (symbol, offsets, line, column, end-of-input three times) is compared with the reference. non-trivial = distinct generated lexer whose streams show >=3 different token kinds including invalid_token (end-of-input counts as a kind)", len(grams), maxLen, len(main.words)))
 	c.Assume("reference conventions where the statement is silent (all follow the implementation): malformed UTF-8 byte = U+FFFD of width 1 in rune mode; an invalid token covers the longest prefix that some active rule could still extend, or exactly one character (rune / byte) when that prefix is empty; {eoi} is a zero-width pseudo symbol after the text; a byte-mode literal above 0x7f stands for its UTF-8 bytes; rules with the same token, attributes and action are one action (no conflict between them); Go's unicode tables define \\p{L} and case folding")
 	c.Assume("out of domain (skipped and counted): rules that can match at the end of the input without consuming text ({eoi} first) and {eoi} under an unbounded repetition (the generated lexer would return empty tokens / spin forever; the statement does not say what such rules mean)")
 	c.Set("grammars", len(grams))
@@ -387,7 +389,13 @@ func run(c *core.Ctx) {
 	nontrivialSeen := map[string]bool{}
 	var smu sync.Mutex
 	lexers := 0
-	const concurrentBatches = 2
+	// go build dominates the cost (two packages per lexer). Quick starts all its batches at once
+	// (the first wave is never skipped: on a loaded machine the soft budget can be gone before
+	// the first build ends); thorough keeps three in flight and stops launching near the deadline.
+	concurrentBatches := 3
+	if c.Quick() {
+		concurrentBatches = 8 // more than the quick tier has
+	}
 	type batch struct{ lo, hi int }
 	var batches []batch
 	for lo := 0; lo < len(todo); lo += batchSize {
@@ -399,7 +407,7 @@ func run(c *core.Ctx) {
 		// Do not start a batch that is unlikely to finish inside the soft budget (a batch costs
 		// about as much as the slowest one so far).
 		smu.Lock()
-		late := c.Expired() || (bi >= concurrentBatches && time.Now().Add(maxBatch*11/10).After(c.Deadline))
+		late := bi >= concurrentBatches && (c.Expired() || time.Now().Add(maxBatch*11/10).After(c.Deadline))
 		if late {
 			skippedBatches++
 		}
@@ -424,7 +432,7 @@ func run(c *core.Ctx) {
 			g := grams[w.gid]
 			name := fmt.Sprintf("g%05d", k)
 			tm := g.toTM(name, w.mask)
-			iss := []*inputSet{main}
+			iss := []*inputSet{main, crSet}
 			if g.Extra != nil {
 				iss = append(iss, newInputSet(g.Extra.Letters, g.Extra.MaxLen))
 			}
@@ -475,6 +483,18 @@ func run(c *core.Ctx) {
 				return
 			}
 			rl, rerr := newRefLexer(g, si.mask)
+			if rerr == errNullable {
+				// lex.Compile rejects every rule that matches the empty text (C09); a grammar that
+				// still compiles has lost the rule on the way (class rules are compiled separately)
+				cl.report(finding{key: "accepted-grammar:rule-matches-empty-text", cost: g.nodes(), c: rc,
+					what: fmt.Sprintf("a rule matches the empty text but the grammar compiles with {%s}; grammar %s", optString(si.mask), g.summary())})
+				return
+			}
+			if rerr == errClassTie {
+				cl.report(finding{key: "accepted-grammar:identical-rules", cost: g.nodes(), c: rc,
+					what: fmt.Sprintf("two (class) rules of the same priority match the same text but the grammar compiles with {%s}; grammar %s", optString(si.mask), g.summary())})
+				return
+			}
 			if rerr != nil {
 				c.Outcome("grammar:excluded:"+rerr.Error(), 1)
 				return
@@ -617,6 +637,9 @@ func runOne(g *lexGrammar, gid, mask int, name, input string) error {
 		return fmt.Errorf("lexer run failed: hang=%v panic=%q", res.Hang, res.Panic)
 	}
 	rl, rerr := newRefLexer(g, mask)
+	if rerr == errNullable || rerr == errClassTie {
+		return fmt.Errorf("the grammar compiles although the compiler has to reject it (%v): %s", rerr, g.summary())
+	}
 	if rerr != nil {
 		fmt.Println("grammar is out of domain:", rerr)
 		return nil
